@@ -13,7 +13,7 @@ KEYS = ["a", "b", "c", "d"]
 class Sim:
     """light simulation of the dataset used only to generate mostly-valid histories"""
     def __init__(self):
-        self.axes = []          # [name, kind, labels]
+        self.axes = []          # [name, kind, labels, order_known]
         self.vars = {}          # key -> list of names
 
     def names(self):
@@ -22,21 +22,190 @@ class Sim:
     def axis(self, n):
         return [a for a in self.axes if a[0] == n][0]
 
+    def drop_unused(self, names):
+        for nme in names:
+            if not any(nme in v for v in self.vars.values()):
+                self.axes = [a for a in self.axes if a[0] != nme]
+
+    def as_copy(self):
+        """Dataset.copy() (behind inplace=False) rebuilds the dataset variable by variable: axes in the order the
+        variables bring them, axes no variable uses are not copied"""
+        order = []
+        for k in self.vars:
+            for n in self.vars[k]:
+                if n not in order:
+                    order.append(n)
+        self.axes = [self.axis(n) for n in order]
+
+
+def _skey(l):
+    return Fraction(l[1], l[2]) if l[0] == "n" else l[1]
+
+
+def ctor_expect(start):
+    """what the statement says about Dataset(<arrays with differing labels>): key order, and per dimension
+    (kind, union of the labels, order_known).  The ORDER of the union is C06's business: it is known here only where
+    C06 states it (a single holder: left alone; all holders sorted in one direction, one of them with two labels or more:
+    sorted in that direction)"""
+    vs = list(start["vars"])
+    if start["form"] == "kwargs":
+        vs = sorted(vs, key=lambda v: v["key"])
+    dims = {}
+    order = []
+    for v in vs:
+        for a in v["axes"]:
+            if a["name"] not in dims:
+                dims[a["name"]] = {"kind": a["kind"], "lists": []}
+                order.append(a["name"])
+            dims[a["name"]]["lists"].append(a["labels"])
+    out = {}
+    for d in order:
+        lists = dims[d]["lists"]
+        uni = []
+        for L in lists:
+            for l in L:
+                if l not in uni:
+                    uni.append(l)
+        known = False
+        if len(lists) == 1 or all(L == lists[0] for L in lists) and _sorted_dir(lists[0]) in ("inc", "dec", "both"):
+            uni, known = list(lists[0]), True
+        else:
+            ds_ = set(_sorted_dir(L) for L in lists)
+            for want in ("inc", "dec"):
+                if ds_ <= {want, "both"} and want in ds_:
+                    uni = sorted(uni, key=_skey, reverse=(want == "dec"))
+                    # (two or more one-label inputs next to decreasing ones: open finding K06 of C06 - the order is not relied on)
+                    known = not (want == "dec" and sum(1 for L in lists if len(L) == 1) >= 2)
+            if len(uni) <= 1:
+                known = True
+        out[d] = {"kind": dims[d]["kind"], "labels": uni, "known": known}
+    return [v["key"] for v in vs], order, out, vs
+
+
+def _sorted_dir(L):
+    ks = [_skey(l) for l in L]
+    if len(ks) < 2:
+        return "both"
+    if all(a < b for a, b in zip(ks, ks[1:])):
+        return "inc"
+    if all(a > b for a, b in zip(ks, ks[1:])):
+        return "dec"
+    return None
+
+
+def gen_ctor(rng, pool):
+    ndim = rng.randint(1, 3)
+    dims = rng.sample(pool, ndim)
+    uni = {}
+    for d in dims:
+        kd = rng.choice(["i", "f", "O"])
+        U, _ = gen.labels_of_kind(rng, kd, rng.randint(1, 5), order="inc")
+        uni[d] = (kd, U, rng.choice(["inc", "inc", "dec", "shuf"]))
+    keys = rng.sample(KEYS, rng.randint(1, 4))
+    vs = []
+    for i, k in enumerate(keys):
+        sub = [d for d in dims if rng.random() < 0.6]
+        rng.shuffle(sub)
+        axs = []
+        for d in sub:
+            kd, U, direction = uni[d]
+            L = list(U) if rng.random() < 0.35 else [l for l in U if rng.random() < 0.6]
+            if not L and rng.random() < 0.85:
+                L = [rng.choice(U)]         # (an empty axis next to a non-empty one: open finding K05 of C06; kept rare)
+            if direction == "dec":
+                L = L[::-1]
+            elif direction == "shuf":
+                rng.shuffle(L)
+            axs.append({"name": d, "kind": kd, "labels": L})
+        vs.append({"key": k, "axes": axs, "vb": 50 + i, "vkind": rng.choice(["f", "f", "i"])})
+    return {"form": rng.choice(["dict", "kwargs", "pairs"]), "vars": vs}
+
+
+def map_labels(spec, lkind, prev):
+    """the labels an axis has after set_axis(values=<spec>) when it had `prev` (encoded labels)"""
+    f = spec["form"]
+    if f in ("array", "list"):
+        return list(spec["labels"])
+    if f == "dict":
+        m = {lab_key(a): b for a, b in spec["map"]}
+        return [m.get(lab_key(l), l) for l in prev]
+    if f == "callable":
+        out = []
+        for l in prev:
+            if lkind == "i":
+                out.append(["n", l[1] + 100 * l[2], l[2]])
+            elif lkind == "f":
+                fr = Fraction(l[1], l[2]) + Fraction(1, 2)
+                out.append(["n", fr.numerator, fr.denominator])
+            else:
+                out.append(["s", l[1] + "_"])
+        return out
+    raise ValueError(f)
+
+
+def py_mapper(spec, lkind):
+    f = spec["form"]
+    if f == "array":
+        return core.label_array(spec["labels"], lkind)
+    if f == "list":
+        return [core.dec_label(l, lkind) for l in spec["labels"]]
+    if f == "dict":
+        return {core.dec_label(a, lkind): core.dec_label(b, lkind) for a, b in spec["map"]}
+    if lkind == "i":
+        return lambda v: v + 100
+    if lkind == "f":
+        return lambda v: v + 0.5
+    return lambda v: v + "_"
+
+
+def gen_mapper(rng, ax):
+    kind, L = ax[1], ax[2]
+    form = rng.choice(["array", "list", "dict", "dict", "callable", "callable"])
+    if form in ("array", "list"):
+        labels, _ = gen.labels_of_kind(rng, kind, len(L))
+        return {"form": form, "labels": labels}
+    if form == "dict":
+        m, taken = [], list(L)
+        for l in L:
+            if rng.random() < 0.5:
+                new = gen.absent_label(rng, {"kind": kind, "labels": taken})
+                taken.append(new)
+                m.append([l, new])
+        if rng.random() < 0.3:
+            # a key that is not on the axis: ignored
+            m.append([gen.absent_label(rng, {"kind": kind, "labels": taken}), gen.absent_label(rng, {"kind": kind, "labels": taken})])
+        return {"form": "dict", "map": m}
+    return {"form": "callable"}
+
+
+def raw_axes(shape):
+    """DimArray(<ndarray / list / scalar>) names its dimensions x0, x1, ... and labels them 0..n-1"""
+    return [{"name": "x%d" % i, "kind": "i", "labels": [["n", j, 1] for j in range(n)]} for i, n in enumerate(shape)]
+
 
 def gen_history(rng, maxlen=12, from_ctor=False):
     sim = Sim()
     ops = []
     pool = gen.DIMS + ["t", "u", "v"]
-    kinds = {}
+    start = None
+    P_COPY = 0.08            # share of the eligible calls made with inplace=False
 
-    def fresh_name():
-        free = [d for d in pool + ["p", "q", "r", "s2"] if d not in sim.names()]
+    def fresh_name(extra=()):
+        free = [d for d in pool + ["p", "q", "r", "s2"] if d not in sim.names() and d not in extra]
         return rng.choice(free) if free else None
+
+    if from_ctor:
+        start = gen_ctor(rng, pool)
+        keys, order, exp, vs = ctor_expect(start)
+        for d in order:
+            sim.axes.append([d, exp[d]["kind"], list(exp[d]["labels"]), exp[d]["known"]])
+        for v in vs:
+            sim.vars[v["key"]] = [a["name"] for a in v["axes"]]
 
     def make_axes(k, mismatch=False):
         """axes for a new value: mostly dataset axes (with their labels), some new ones"""
         rank = rng.choice([0, 1, 1, 2, 2, 3])
-        cand = list(sim.names())
+        cand = [n for n in sim.names() if sim.axis(n)[3]]
         rng.shuffle(cand)
         out = []
         used = set()
@@ -69,31 +238,76 @@ def gen_history(rng, maxlen=12, from_ctor=False):
                 bad = i
         return out, bad
 
+    def sim_set(key, axs, bad):
+        if bad is None:
+            old = sim.vars.get(key, [])
+            for a in axs:
+                if a["name"] not in sim.names():
+                    sim.axes.append([a["name"], a["kind"], list(a["labels"]), True])
+            sim.vars[key] = [a["name"] for a in axs]
+            sim.drop_unused([nme for nme in old if nme not in sim.vars[key]])
+
+    def sim_rename(old, new):
+        if old not in sim.names():
+            return          # (an unused axis is not in the copy an inplace=False call works on: that call fails)
+        sim.axis(old)[0] = new
+        for k in sim.vars:
+            sim.vars[k] = [new if x == old else x for x in sim.vars[k]]
+
+    def sim_rename_key(old, new):
+        if old != new:
+            if new in sim.vars:
+                gone = sim.vars.pop(new)
+                sim.drop_unused(gone)
+            sim.vars[new] = sim.vars.pop(old)
+
+    def copy_flag(op):
+        if rng.random() < P_COPY:
+            addressed = [a for a, _ in op["map"]] if op["op"] == "rename_axes" else \
+                ([op["d"][1] if op["d"][0] == "name" else sim.names()[op["d"][1]]] if op.get("d") else [])
+            if any(not any(nme in v for v in sim.vars.values()) for nme in addressed):
+                return op       # (an axis no variable uses is not in the copy: the call would fail and the history stay on the original)
+            op["inplace"] = False
+            if op.get("d") and op["d"][0] == "pos":
+                # TODO(defect): Dataset.copy() lists the axes in the order its variables bring them (and drops unused
+                # ones), so set_axis(axis=<position>, inplace=False) addresses another axis than the same call in place;
+                # until that is decided the copying calls address the axis by name
+                op["d"] = ["name", sim.names()[op["d"][1]]]
+            sim.as_copy()
+        return op
+
     n = rng.randint(1, maxlen)
     for step in range(n):
         r = rng.random()
+        vb = step + 1
         if r < 0.34 or not sim.vars:
             key = rng.choice(KEYS)
+            if rng.random() < 0.14:
+                # a value that is not a DimArray: ndarray / nested list / scalar (dimensions x0, x1, ... labelled 0..n-1)
+                raw = rng.choice(["ndarray", "ndarray", "list", "list", "scalar"])
+                shape = [] if raw == "scalar" else [rng.choice([1, 2, 2, 3]) for _ in range(rng.choice([1, 1, 2]))]
+                have = [sim.axis(a["name"]) for a in raw_axes(shape) if a["name"] in sim.names()]
+                if have and rng.random() < 0.6:
+                    # mostly the sizes the dataset already has for x0, x1, ...
+                    shape = [len(sim.axis(a["name"])[2]) if a["name"] in sim.names() else len(a["labels"]) for a in raw_axes(shape)]
+                axs = raw_axes(shape)
+                bad = None
+                for i, a in enumerate(axs):
+                    if a["name"] in sim.names() and [lab_key(l) for l in sim.axis(a["name"])[2]] != [lab_key(l) for l in a["labels"]]:
+                        bad = i
+                ops.append({"op": "set", "key": key, "axes": axs, "raw": raw, "vb": vb})
+                sim_set(key, axs, bad)
+                continue
             mismatch = bool(sim.axes) and rng.random() < 0.2
             axs, bad = make_axes(key, mismatch)
-            ops.append({"op": "set", "key": key, "axes": axs})
-            if bad is None:
-                old = sim.vars.get(key, [])
-                for a in axs:
-                    if a["name"] not in sim.names():
-                        sim.axes.append([a["name"], a["kind"], list(a["labels"])])
-                sim.vars[key] = [a["name"] for a in axs]
-                for nme in old:
-                    if nme not in sim.vars[key] and not any(nme in v for v in sim.vars.values()):
-                        sim.axes = [a for a in sim.axes if a[0] != nme]
+            ops.append({"op": "set", "key": key, "axes": axs, "vb": vb})
+            sim_set(key, axs, bad)
         elif r < 0.44:
             key = rng.choice(list(sim.vars) + (["zz"] if rng.random() < 0.1 else []))
             ops.append({"op": "del", "key": key})
             if key in sim.vars:
                 old = sim.vars.pop(key)
-                for nme in old:
-                    if not any(nme in v for v in sim.vars.values()):
-                        sim.axes = [a for a in sim.axes if a[0] != nme]
+                sim.drop_unused(old)
         elif r < 0.54 and sim.axes:
             i = rng.randrange(len(sim.axes))
             new = fresh_name()
@@ -101,7 +315,39 @@ def gen_history(rng, maxlen=12, from_ctor=False):
                 continue
             d = ["name", sim.axes[i][0]] if rng.random() < 0.6 else ["pos", i]
             old = sim.axes[i][0]
-            if rng.random() < 0.4:
+            q = rng.random()
+            if q < 0.25:
+                # rename_axes: a dict (one or two entries) or a callable applied to every dimension
+                pairs = [[old, new]]
+                others = [x for x in sim.names() if x != old]
+                if others and rng.random() < 0.4:
+                    new2 = fresh_name(extra=(new,))
+                    if new2 is not None:
+                        pairs.append([rng.choice(others), new2])
+                        rng.shuffle(pairs)
+                op = {"op": "rename_axes", "map": pairs, "form": rng.choice(["dict", "dict", "callable"])}
+                if op["form"] == "callable":
+                    op["map"] = sorted(pairs, key=lambda p: sim.names().index(p[0]))
+                ops.append(op)
+                copy_flag(op)
+                for o_, n_ in pairs:
+                    sim_rename(o_, n_)
+                continue
+            if q < 0.4:
+                # set_axis(name=...) alone or together with new labels
+                ax = sim.axes[i]
+                op = {"op": "set_axis", "d": d, "name": new, "values": None, "lkind": ax[1]}
+                if rng.random() < 0.4:
+                    op["values"] = gen_mapper(rng, ax)
+                    op["labels"] = map_labels(op["values"], ax[1], ax[2])
+                    ax[2][:] = op["labels"]
+                    if op["values"]["form"] in ("array", "list"):
+                        ax[3] = True
+                ops.append(op)
+                copy_flag(op)
+                sim_rename(old, new)
+                continue
+            if q < 0.64:
                 holders = [k for k, v in sim.vars.items() if old in v]
                 if holders:
                     k = rng.choice(holders)
@@ -111,9 +357,7 @@ def gen_history(rng, maxlen=12, from_ctor=False):
                     ops.append({"op": "rename_axis", "d": d, "new": new})
             else:
                 ops.append({"op": "rename_axis", "d": d, "new": new})
-            sim.axes[i][0] = new
-            for k in sim.vars:
-                sim.vars[k] = [new if x == old else x for x in sim.vars[k]]
+            sim_rename(old, new)
         elif r < 0.6 and sim.axes:
             names = []
             olds = sim.names()
@@ -150,8 +394,38 @@ def gen_history(rng, maxlen=12, from_ctor=False):
         elif r < 0.8 and sim.axes:
             i = rng.randrange(len(sim.axes))
             ax = sim.axes[i]
-            labels, _ = gen.labels_of_kind(rng, ax[1], len(ax[2]))
             d = ["name", ax[0]] if rng.random() < 0.4 else ["pos", i]
+            q = rng.random()
+            if q < 0.3:
+                # set_axis with the other forms of `values`: list, dict (old label -> new label), callable
+                op = {"op": "set_axis", "d": d, "name": None, "values": gen_mapper(rng, ax), "lkind": ax[1]}
+                op["labels"] = map_labels(op["values"], ax[1], ax[2])
+                ax[2][:] = op["labels"]
+                if op["values"]["form"] in ("array", "list"):
+                    ax[3] = True
+                ops.append(op)
+                copy_flag(op)
+                continue
+            if q < 0.45:
+                # ds.axes = [Axis, ...]: axes with a known name replace the dataset's, the others are appended
+                chosen = rng.sample(range(len(sim.axes)), rng.randint(1, min(2, len(sim.axes))))
+                items = []
+                for ci in chosen:
+                    a = sim.axes[ci]
+                    labels, _ = gen.labels_of_kind(rng, a[1], len(a[2]))
+                    items.append({"name": a[0], "kind": a[1], "labels": labels, "fresh": False})
+                    a[2][:] = labels
+                    a[3] = True
+                if rng.random() < 0.5:
+                    nme = fresh_name()
+                    if nme is not None:
+                        kd = rng.choice(["i", "O"])
+                        labels, _ = gen.labels_of_kind(rng, kd, rng.randint(0, 3))
+                        items.insert(rng.randint(0, len(items)), {"name": nme, "kind": kd, "labels": labels, "fresh": True})
+                        sim.axes.append([nme, kd, list(labels), True])
+                ops.append({"op": "axes_setter", "axes": items})
+                continue
+            labels, _ = gen.labels_of_kind(rng, ax[1], len(ax[2]))
             holders = [k for k, v in sim.vars.items() if ax[0] in v]
             if rng.random() < 0.3 and ax[0].isidentifier():
                 # attribute syntax: ds.<dim> = labels, or through one of the variables ds[k].<dim> = labels
@@ -160,17 +434,36 @@ def gen_history(rng, maxlen=12, from_ctor=False):
             else:
                 ops.append({"op": rng.choice(["set_labels", "replace_axis", "replace_axis", "replace_axis_raw"]), "d": d, "labels": labels, "lkind": ax[1]})
             ax[2][:] = labels
+            ax[3] = True
         elif r < 0.9 and sim.vars:
             old = rng.choice(list(sim.vars))
             new = rng.choice(KEYS + ["e"])
-            ops.append({"op": "rename_key", "old": old, "new": new})
-            if old != new:
-                if new in sim.vars:
-                    gone = sim.vars.pop(new)
-                    for nme in gone:
-                        if not any(nme in v for v in sim.vars.values()):
-                            sim.axes = [a for a in sim.axes if a[0] != nme]
-                sim.vars[new] = sim.vars.pop(old)
+            q = rng.random()
+            if q < 0.3:
+                # rename_keys with several entries, or with a callable (applied to every key)
+                form = rng.choice(["dict", "callable"])
+                if form == "callable":
+                    # k -> table.get(k, k) over all keys, in key order
+                    tab = {}
+                    for k in sim.vars:
+                        if rng.random() < 0.6:
+                            tab[k] = rng.choice(["e", "g", "h", k + "_", k + "_"] + KEYS)
+                    pairs = [[k, tab.get(k, k)] for k in sim.vars]
+                    op = {"op": "rename_keys", "form": "callable", "map": pairs}
+                else:
+                    olds = rng.sample(list(sim.vars), min(len(sim.vars), rng.randint(1, 2)))
+                    pairs = [[k, rng.choice(["e", "g", k + "_", k] + KEYS)] for k in olds]
+                    op = {"op": "rename_keys", "form": "dict", "map": pairs}
+                ops.append(op)
+                for o_, n_ in pairs:
+                    if o_ in sim.vars:
+                        sim_rename_key(o_, n_)
+                copy_flag(op)
+                continue
+            op = {"op": "rename_key", "old": old, "new": new}
+            ops.append(op)
+            sim_rename_key(old, new)
+            copy_flag(op)
         else:
             nme = fresh_name()
             if nme is None:
@@ -178,25 +471,52 @@ def gen_history(rng, maxlen=12, from_ctor=False):
             kd = rng.choice(["i", "O"])
             labels, _ = gen.labels_of_kind(rng, kd, rng.randint(0, 3))
             ops.append({"op": "append_axis", "name": nme, "labels": labels, "kind": kd})
-            sim.axes.append([nme, kd, list(labels)])     # (a copy: the simulation relabels its own list in place)
-    return ops
+            sim.axes.append([nme, kd, list(labels), True])     # (a copy: the simulation relabels its own list in place)
+    return start, ops
+
+
+def canon_vals(a):
+    a = np.asarray(a)
+    return [core.canon_value(v) for v in a.reshape(-1).tolist()]
 
 
 def observe(ds):
-    """keys, dims, labels, per-variable dims and the identity matrix ds[k].axes[d] is ds.axes[d]"""
+    """keys, dims, labels, per-variable dims, VALUES, and the identity matrix ds[k].axes[d] is ds.axes[d]"""
     dims = list(ds.dims)
     out = {"keys": list(ds.keys()), "dims": dims,
-           "labels": [[core.enc_label(v) for v in ax.values.tolist()] for ax in ds.axes], "vars": {}, "shared": {}, "shapes_ok": True}
+           "labels": [[core.enc_label(v) for v in ax.values.tolist()] for ax in ds.axes], "vars": {}, "shared": {}, "shapes_ok": True,
+           "values": {}, "vshape": {}, "vlabels_ok": True}
     for k in ds.keys():
         v = dict.__getitem__(ds, k)
         out["vars"][k] = list(v.dims)
         sh = []
         for ax in v.axes:
             sh.append(any(ax is dax for dax in ds.axes))
+            # the labels as seen from the variable are those seen from the dataset
+            same = [dax for dax in ds.axes if dax.name == ax.name]
+            if len(same) != 1 or [core.enc_label(x) for x in same[0].values.tolist()] != [core.enc_label(x) for x in ax.values.tolist()]:
+                out["vlabels_ok"] = False
         out["shared"][k] = sh
         if tuple(ax.size for ax in v.axes) != v.values.shape:
             out["shapes_ok"] = False
+        out["values"][k] = canon_vals(v.values)
+        out["vshape"][k] = list(np.shape(v.values))
     return out
+
+
+def set_values(op):
+    """the data assigned by a `set` step (distinct per step, so that it is visible whose data a variable holds)"""
+    shape = tuple(len(a["labels"]) for a in op["axes"])
+    return core.make_values(shape, op.get("vkind", "f"), op.get("vb", 0))
+
+
+FAMILY_RENAME = ("rename_axis", "rename_via_var", "set_dims", "rename_axes", "set_axis")
+FAMILY_RELABEL = ("set_label", "set_labels", "set_labels_attr", "replace_axis", "replace_axis_raw", "set_axis", "axes_setter")
+DUMMY = {"op": "union", "a": {"name": "x", "kind": "i", "labels": []}, "b": {"name": "x", "kind": "i", "labels": []}, "join": "outer"}
+
+
+def lk(L):
+    return [lab_key(x) for x in L]
 
 
 class C13(Prop):
@@ -204,13 +524,24 @@ class C13(Prop):
     theorems = ["inv_init", "inv_step_partial", "inv_step_of_not_setVar", "inv_run", "inv_reachable",
                 "inv_reachable_renameFree", "reject_restores", "rename_visible", "relabel_visible",
                 "inv_step_counterexample"]
-    rule = ("histories of 1-12 Dataset mutations from an empty dataset: ds[k] = array (new / replacing, fewer / more / other "
-            "dimensions, 20% with labels mismatching an existing axis on some dimension), del ds[k], axis renames through "
-            "the dataset or through a variable, ds.dims = ..., ds.axes[d][i] = label, set_axis, ds.axes[d] = Axis (by name "
-            "or position), rename_keys (also onto existing keys), axes appended directly; after every step keys, dims, "
-            "labels, per-variable dims and the identity matrix ds[k].axes[d] is ds.axes[d] are compared with the model, also "
-            "after a rejected assignment. Non-trivial = at least 3 steps; distinct = canonical JSON")
-    assumptions = ["axis renames use fresh names (a rename onto an existing dimension name is outside the property)"]
+    rule = ("histories of 1-12 Dataset mutations from an empty dataset or (30%) from Dataset(<dict / kwargs / pairs of 1-4 arrays "
+            "whose labels differ: subsets of a common label set, increasing / decreasing / shuffled>): ds[k] = array (new / replacing, "
+            "fewer / more / other dimensions, 20% with labels mismatching an existing axis on some dimension; 14% an ndarray / "
+            "nested list / scalar instead of a DimArray), del ds[k], axis renames through the dataset, through a variable, "
+            "rename_axes (dict / callable) or set_axis(name=), ds.dims = ..., ds.axes[d][i] = label, set_axis (array / list / dict / "
+            "callable values), ds.axes[d] = Axis (by name or position), ds.axes = [Axis, ...], rename_keys (one or several entries, "
+            "callable, also onto existing keys), axes appended directly, 8% of the eligible calls with inplace=False (the history "
+            "goes on with the returned copy); after every step keys, dims, labels, per-variable dims and the identity matrix "
+            "ds[k].axes[d] is ds.axes[d] are compared with the model (as long as the steps are modelled), also after a rejected "
+            "assignment; the oracle checks the sharing rule, the dims rule, visibility of every rename / relabel, the state "
+            "after a rejection, the outer-join of the constructor (label by label, value by value) and that every variable's "
+            "VALUES are exactly those assigned to it, whatever is renamed or relabelled. Non-trivial = at least 3 steps or a "
+            "constructed start; distinct = canonical JSON")
+    assumptions = ["axis renames use fresh names (a rename onto an existing dimension name is outside the property)",
+                   "the order of the labels of a constructor-aligned axis is C06's subject: only their set is checked here (the "
+                   "model is compared only where C06's statement fixes the order)",
+                   "inplace=False: the sharing rule is checked on the returned copy and on the original; that the original is "
+                   "left as it was is the documented copy semantics, reported as a model disagreement (class M) only"]
 
     def mirrors(self):
         import sys as _s
@@ -218,39 +549,88 @@ class C13(Prop):
         return {"Dataset.__setitem__": d.Dataset.__setitem__, "Dataset.__delitem__": d.Dataset.__delitem__,
                 "_maybe_delete_axes": d.Dataset._maybe_delete_axes, "DatasetAxes.__setitem__": d.DatasetAxes.__setitem__,
                 "rename_keys": d.Dataset.rename_keys, "rename_axes": d.Dataset.rename_axes, "set_axis": d.Dataset.set_axis,
-                "Dataset.__init__": d.Dataset.__init__}
+                "Dataset.__init__": d.Dataset.__init__, "Dataset.axes.setter": d.Dataset.axes.fset, "Dataset.copy": d.Dataset.copy}
 
     def gen(self, rng, tier):
-        n = 500 if tier == "quick" else 12000
+        n = 650 if tier == "quick" else 14000
         for _ in range(n):
-            yield {"op": "ds_history", "ops": gen_history(rng)}
+            start, ops = gen_history(rng, from_ctor=rng.random() < 0.3)
+            c = {"op": "ds_history", "ops": ops}
+            if start is not None:
+                c["start"] = start
+            yield c
+
+    # ------------------------------------------------------------ implementation side
+    def construct(self, start):
+        items = []
+        for v in start["vars"]:
+            axes = [core.build_axis(a) for a in v["axes"]]
+            shape = tuple(len(a["labels"]) for a in v["axes"])
+            items.append((v["key"], DimArray(core.make_values(shape, v.get("vkind", "f"), v["vb"]), axes=axes)))
+        if start["form"] == "dict":
+            return Dataset(dict(items))
+        if start["form"] == "kwargs":
+            return Dataset(**dict(items))
+        return Dataset(items)
 
     def impl(self, c):
-        ds = Dataset()
         out = []
-        for op in c["ops"]:
+        res = {"ok": out}
+        ds = Dataset()
+        if c.get("start"):
             err = None
             try:
-                self.apply(ds, op)
+                ds = self.construct(c["start"])
+            except Exception as e:  # noqa
+                err = core.exc_class(e)
+                res["start_msg"] = "%s: %s" % (type(e).__name__, str(e)[:200])
+            o = observe(ds)
+            o["err"] = err
+            res["start"] = o
+        for op in c["ops"]:
+            err = None
+            orig = ds
+            before = observe(ds) if not op.get("inplace", True) else None
+            try:
+                r = self.apply(ds, op)
+                if not op.get("inplace", True):
+                    ds = r
             except Exception as e:  # noqa
                 err = core.exc_class(e)
             o = observe(ds)
             o["err"] = err
+            if before is not None and err is None:
+                oo = observe(orig)
+                o["copy"] = {"distinct": ds is not orig, "orig_same": oo == before,
+                             "orig_shared": all(all(s) for s in oo["shared"].values()) and oo["vlabels_ok"],
+                             "no_common_axis": not any(a is b for a in ds.axes for b in orig.axes)}
             out.append(o)
-        return {"ok": out}
+        return res
 
     def apply(self, ds, op):
         t = op["op"]
+        kw = {} if op.get("inplace", True) else {"inplace": False}
         if t == "set":
-            axes = [core.build_axis(a) for a in op["axes"]]
-            shape = tuple(len(a["labels"]) for a in op["axes"])
-            ds[op["key"]] = DimArray(core.make_values(shape, "f", 0), axes=axes)
+            vals = set_values(op)
+            raw = op.get("raw")
+            if raw == "ndarray":
+                ds[op["key"]] = vals
+            elif raw == "list":
+                ds[op["key"]] = vals.tolist()
+            elif raw == "scalar":
+                ds[op["key"]] = float(vals.reshape(-1)[0])
+            else:
+                axes = [core.build_axis(a) for a in op["axes"]]
+                ds[op["key"]] = DimArray(vals, axes=axes)
         elif t == "del":
             del ds[op["key"]]
         elif t == "rename_axis":
             ds.axes[op["d"][1]].name = op["new"]
         elif t == "rename_via_var":
             ds[op["key"]].axes[op["d"][1]].name = op["new"]
+        elif t == "rename_axes":
+            m = dict((a, b) for a, b in op["map"])
+            return ds.rename_axes(m if op["form"] == "dict" else (lambda s: m.get(s, s)), **kw)
         elif t == "set_dims":
             ds.dims = tuple(op["names"])
         elif t == "set_label":
@@ -260,101 +640,448 @@ class C13(Prop):
             setattr(target, op["name"], core.label_array(op["labels"], op["lkind"]))
         elif t == "set_labels":
             ds.set_axis(core.label_array(op["labels"], op["lkind"]), axis=op["d"][1])
+        elif t == "set_axis":
+            vals = None if op["values"] is None else py_mapper(op["values"], op["lkind"])
+            if op.get("name") is not None:
+                kw["name"] = op["name"]
+            return ds.set_axis(vals, axis=op["d"][1], **kw)
         elif t == "replace_axis":
             name = ds.axes[op["d"][1]].name
             ds.axes[op["d"][1]] = Axis(core.label_array(op["labels"], op["lkind"]), name)
         elif t == "replace_axis_raw":
             # plain labels (not an Axis object) assigned to the dataset's axis
             ds.axes[op["d"][1]] = core.label_array(op["labels"], op["lkind"])
+        elif t == "axes_setter":
+            ds.axes = [core.build_axis(a) for a in op["axes"]]
         elif t == "rename_key":
-            ds.rename_keys({op["old"]: op["new"]})
+            return ds.rename_keys({op["old"]: op["new"]}, **kw)
+        elif t == "rename_keys":
+            m = dict((a, b) for a, b in op["map"])
+            return ds.rename_keys(m if op["form"] == "dict" else (lambda s: m.get(s, s)), **kw)
         elif t == "append_axis":
             ds.axes.append(Axis(core.label_array(op["labels"], op["kind"]), op["name"]))
         else:
             raise ValueError(t)
 
+    # ------------------------------------------------------------ model side
+    def lean_plan(self, c):
+        """the history in the vocabulary of the model: (model ops, number of ops standing for the constructor,
+        per step the range of model ops it was spelled with - None from the first step the model has no word for)"""
+        ops, groups = [], []
+        nstart = 0
+        on = True
+        st = c.get("start")
+        if st:
+            keys, order, exp, vs = ctor_expect(st)
+            if all(e["known"] for e in exp.values()):
+                # the constructor = inserting the aligned arrays one by one
+                for v in vs:
+                    ops.append({"op": "set", "key": v["key"],
+                                "axes": [{"name": a["name"], "kind": a["kind"], "labels": exp[a["name"]]["labels"]} for a in v["axes"]]})
+                nstart = len(ops)
+            else:
+                on = False
+        for o in c["ops"]:
+            if not on:
+                groups.append(None)
+                continue
+            t = o["op"]
+            lo = len(ops)
+            if t == "set":
+                ops.append({"op": "set", "key": o["key"], "axes": o["axes"]})
+            elif t == "set_labels_attr":
+                # attribute-style relabelling is the same state change as set_axis by name
+                ops.append(dict(op="set_labels", d=["name", o["name"]], labels=o["labels"], lkind=o["lkind"]))
+            elif t == "replace_axis_raw":
+                ops.append(dict(o, op="replace_axis"))
+            elif t == "rename_axes":
+                for a, b in o["map"]:
+                    ops.append({"op": "rename_axis", "d": ["name", a], "new": b})
+            elif t == "set_axis":
+                if o["values"] is not None:
+                    ops.append({"op": "set_labels", "d": o["d"], "labels": o["labels"], "lkind": o["lkind"]})
+                if o.get("name") is not None:
+                    ops.append({"op": "rename_axis", "d": o["d"], "new": o["name"]})
+            elif t == "axes_setter":
+                for a in o["axes"]:
+                    if not a.get("fresh"):
+                        ops.append({"op": "replace_axis", "d": ["name", a["name"]], "labels": a["labels"], "lkind": a["kind"]})
+                    else:
+                        ops.append({"op": "append_axis", "name": a["name"], "labels": a["labels"], "kind": a["kind"]})
+            elif t == "rename_keys":
+                for a, b in o["map"]:
+                    ops.append({"op": "rename_key", "old": a, "new": b})
+            else:
+                ops.append({k: v for k, v in o.items() if k not in ("inplace", "vb")})
+            if not o.get("inplace", True):
+                # Dataset.copy() is not a word of the model (the copy has its axes in its own order): from here on the
+                # oracle decides alone
+                del ops[lo:]
+                groups.append(None)
+                on = False
+                continue
+            groups.append((lo, len(ops)))
+        return ops, nstart, groups
+
     def request(self, c):
-        # attribute-style relabelling is the same state change as set_axis by name
-        ops = [dict(op="set_labels", d=["name", o["name"]], labels=o["labels"], lkind=o["lkind"]) if o["op"] == "set_labels_attr" else
-               (dict(o, op="replace_axis") if o["op"] == "replace_axis_raw" else o)
-               for o in c["ops"]]
+        ops, nstart, groups = self.lean_plan(c)
+        if not ops:
+            return dict(DUMMY)
         return {"op": "ds_history", "ops": ops}
+
+    # ------------------------------------------------------------ oracle
+    def start_oracle(self, c, o):
+        """Dataset(<arrays with differing labels>): outer join, checked label by label and value by value"""
+        p = []
+        if o["err"] is not None:
+            return ["ctor:" + o["err"]]
+        keys, order, exp, vs = ctor_expect(c["start"])
+        if sorted(o["keys"]) != sorted(keys):
+            return ["ctor:keys"]
+        if set(o["dims"]) != set(order) or len(o["dims"]) != len(order):
+            return ["ctor:dims"]
+        labs = dict(zip(o["dims"], o["labels"]))
+        for d in order:
+            got = lk(labs[d])
+            if len(set(got)) != len(got) or set(got) != set(lk(exp[d]["labels"])):
+                p.append("ctor:labels_not_union")
+        if p:
+            return p
+        for v in vs:
+            k = v["key"]
+            names = [a["name"] for a in v["axes"]]
+            if o["vars"][k] != names:
+                p.append("ctor:var_dims")
+                continue
+            src = core.make_values(tuple(len(a["labels"]) for a in v["axes"]), v.get("vkind", "f"), v["vb"])
+            pos = [{x: i for i, x in enumerate(lk(a["labels"]))} for a in v["axes"]]
+            shape = [len(labs[d]) for d in names]
+            if o["vshape"][k] != shape:
+                p.append("ctor:var_shape")
+                continue
+            want = []
+            for idx in itertools.product(*[range(n) for n in shape]):
+                src_idx = tuple(pos[j].get(lab_key(labs[names[j]][i])) for j, i in enumerate(idx))
+                want.append(["nan"] if any(i is None for i in src_idx) else core.canon_value(src[src_idx]))
+            if want != o["values"][k]:
+                p.append("ctor:values")
+        return p
+
+    @staticmethod
+    def dim_pos(d, dims):
+        if d[0] == "name":
+            return dims.index(d[1]) if d[1] in dims else None
+        return d[1] if -len(dims) <= d[1] < len(dims) else None
+
+    def expected_frame(self, op, prev):
+        """dims and labels after a successful rename / relabel step, from the step and the state before (None: the step
+        does not address the state the way the generator meant it to - nothing is demanded)"""
+        dims = list(prev["dims"])
+        labels = [list(L) for L in prev["labels"]]
+        t = op["op"]
+        if t == "rename_axis":
+            i = self.dim_pos(op["d"], dims)
+            if i is None or op["new"] in dims:
+                return None
+            dims[i] = op["new"]
+        elif t == "rename_via_var":
+            vd = prev["vars"].get(op["key"])
+            if vd is None:
+                return None
+            j = self.dim_pos(op["d"], vd)
+            if j is None or op["new"] in dims:
+                return None
+            dims[dims.index(vd[j])] = op["new"]
+        elif t == "rename_axes":
+            m = dict((a, b) for a, b in op["map"])
+            if any(a not in dims for a in m) or any(b in dims for b in m.values()) or len(set(m.values())) != len(m):
+                return None
+            dims = [m.get(x, x) for x in dims]
+        elif t == "set_dims":
+            if len(op["names"]) != len(dims) or len(set(op["names"])) != len(op["names"]):
+                return None
+            dims = list(op["names"])
+        elif t == "set_label":
+            i = self.dim_pos(op["d"], dims)
+            if i is None or not -len(labels[i]) <= op["i"] < len(labels[i]):
+                return None
+            labels[i][op["i"]] = op["label"]
+        elif t in ("set_labels", "replace_axis", "replace_axis_raw", "set_labels_attr"):
+            i = self.dim_pos(op["d"] if "d" in op else ["name", op["name"]], dims)
+            if i is None or len(op["labels"]) != len(labels[i]):
+                return None
+            labels[i] = list(op["labels"])
+        elif t == "set_axis":
+            i = self.dim_pos(op["d"], dims)
+            if i is None:
+                return None
+            if op["values"] is not None:
+                new = map_labels(op["values"], op["lkind"], labels[i])
+                if len(new) != len(labels[i]):
+                    return None
+                labels[i] = new
+            if op.get("name") is not None:
+                if op["name"] in dims:
+                    return None
+                dims[i] = op["name"]
+        elif t == "axes_setter":
+            names = [a["name"] for a in op["axes"]]
+            if len(set(names)) != len(names):
+                return None
+            for a in op["axes"]:
+                if a["name"] in dims:
+                    i = dims.index(a["name"])
+                    if len(a["labels"]) != len(labels[i]):
+                        return None
+                    labels[i] = list(a["labels"])
+                else:
+                    dims.append(a["name"])
+                    labels.append(list(a["labels"]))
+        else:
+            return None
+        return dims, labels
 
     def judge(self, c, io, ans):
         bad, prop_bad = [], []
         first = None
         direct = set()
         prev = None
-        for k, (o, l, op) in enumerate(zip(io["ok"], ans["lib"], c["ops"])):
-            # ---- the statement of C13 on the implementation's state
+        lean_ops, nstart, groups = self.lean_plan(c)
+        lib = ans.get("lib") if lean_ops and isinstance(ans.get("lib"), list) else None
+
+        def invariants(o):
             p = []
             for key, sh in o["shared"].items():
                 if not all(sh):
                     p.append("not_shared:" + key)
+            if len(set(o["dims"])) != len(o["dims"]):
+                p.append("duplicate_dims")
+            if not o["shapes_ok"]:
+                p.append("shape")
+            if not o.get("vlabels_ok", True):
+                p.append("labels_not_visible_from_variable")
+            return p
+
+        def model_diff(o, l, err):
+            m = []
+            if (o["err"] is None) != (err is None):
+                m.append("outcome")
+            elif o["err"] != err:
+                m.append("M.errclass")
+            for f in ("keys", "dims", "vars"):
+                if o[f] != l[f]:
+                    m.append(f)
+            if [lk(L) for L in o["labels"]] != [lk(L) for L in l["labels"]]:
+                m.append("labels")
+            if o["shared"] != l["shared"]:
+                m.append("shared")
+            return m
+
+        def report(k, op, o, l, p, m):
+            return {"step": k, "op": op, "impl": {x: o.get(x) for x in ("err", "keys", "dims", "vars", "shared", "copy")},
+                    "model": None if l is None else {x: l[x] for x in ("err", "keys", "dims", "vars", "shared")}}
+
+        # ---- the constructed start
+        if c.get("start"):
+            o = io["start"]
+            if o["err"] is not None:
+                return {"kind": "P", "differs": ["ctor:" + o["err"]], "first": report(-1, {"op": "Dataset(...)"}, o, None, [], []),
+                        "msg": io.get("start_msg")}
+            p = self.start_oracle(c, o) + invariants(o)
             usedd = set(d for v in o["vars"].values() for d in v)
-            if op["op"] == "append_axis" and o["err"] is None:
+            if set(o["dims"]) != usedd:
+                p.append("dims_not_used")
+            m = []
+            l = None
+            if lib is not None and nstart:
+                l = lib[nstart - 1]
+                errs = [x["err"] for x in lib[:nstart] if x["err"] is not None]
+                m = model_diff(o, l, errs[0] if errs else None)
+            if p or m:
+                return {"kind": "P" if p else "M", "differs": sorted(set(p + m)), "first": report(-1, {"op": "Dataset(...)"}, o, l, p, m),
+                        "msg": io.get("start_msg")}
+            prev = o
+        lean_on = lib is not None
+        for k, (o, op) in enumerate(zip(io["ok"], c["ops"])):
+            t = op["op"]
+            ok = o["err"] is None
+            # ---- the statement of C13 on the implementation's state
+            p = invariants(o)
+            usedd = set(d for v in o["vars"].values() for d in v)
+            if t == "append_axis" and ok:
                 direct.add(op["name"])
-            if op["op"] in ("rename_axis", "rename_via_var", "set_dims") and o["err"] is None and prev is not None:
+            if t == "axes_setter" and ok and prev is not None:
+                direct |= set(a["name"] for a in op["axes"] if a["name"] not in prev["dims"])
+            if t in FAMILY_RENAME and ok and prev is not None and len(prev["dims"]) == len(o["dims"]) and "copy" not in o:
                 ren = dict(zip(prev["dims"], o["dims"]))
                 direct = set(ren.get(d, d) for d in direct)
             direct &= set(o["dims"])
             direct -= usedd
             if set(o["dims"]) != usedd | direct:
                 p.append("dims_not_used")
-            if len(set(o["dims"])) != len(o["dims"]):
-                p.append("duplicate_dims")
-            if not o["shapes_ok"]:
-                p.append("shape")
-            if op["op"] == "set" and o["err"] is not None and prev is not None:
+            if t == "set" and not ok and prev is not None:
                 # a rejected assignment leaves the dataset as it was
-                if {x: prev[x] for x in ("keys", "dims", "labels", "vars")} != {x: o[x] for x in ("keys", "dims", "labels", "vars")}:
+                fr = ("keys", "dims", "labels", "vars", "values", "vshape")
+                if {x: prev.get(x) for x in fr} != {x: o.get(x) for x in fr}:
                     p.append("reject_not_restored")
-            if op["op"] == "set" and o["err"] is not None and o["err"] != "value":
+            if t == "set" and not ok and o["err"] != "value":
                 p.append("errclass")
-            # a changed axis name is immediately visible from the dataset (and, names being shared objects, from the variables)
-            if op["op"] == "set_dims" and o["err"] is None and len(set(op["names"])) == len(op["names"]) and o["dims"] != op["names"]:
-                p.append("rename_not_visible")
-            if op["op"] == "rename_axis" and o["err"] is None and prev is not None and op["new"] not in prev["dims"]:
-                pos = prev["dims"].index(op["d"][1]) if op["d"][0] == "name" and op["d"][1] in prev["dims"] else (op["d"][1] if op["d"][0] == "pos" else None)
-                if pos is not None and 0 <= pos < len(o["dims"]) and o["dims"][pos] != op["new"]:
-                    p.append("rename_not_visible")
+            if prev is None:
+                prev = {"keys": [], "dims": [], "labels": [], "vars": {}, "values": {}, "vshape": {}}
+            m_copy = []
+            if ok:
+                # a changed axis name or label is immediately visible from the dataset and from all variables; the data of
+                # the variables is not touched by renaming / relabelling
+                if t in FAMILY_RENAME or t in FAMILY_RELABEL:
+                    fr = self.expected_frame(op, prev)
+                    if fr is not None:
+                        edims, elabels = fr
+                        ren = dict(zip(prev["dims"], edims))
+                        if "copy" in o:
+                            # the returned copy lists its axes in its own order and has only the axes its variables use
+                            got = dict(zip(o["dims"], [lk(L) for L in o["labels"]]))
+                            want = {d: lk(L) for d, L in zip(edims, elabels) if d in usedd}
+                            if set(got) != set(want):
+                                p.append("rename_not_visible")
+                            elif got != want:
+                                p.append("relabel_not_visible")
+                        else:
+                            if o["dims"] != edims:
+                                p.append("rename_not_visible")
+                            elif [lk(L) for L in o["labels"]] != [lk(L) for L in elabels]:
+                                p.append("relabel_not_visible")
+                        if o["keys"] != prev["keys"]:
+                            p.append("keys_changed")
+                        elif any(o["vars"][key] != [ren.get(d, d) for d in prev["vars"][key]] for key in o["keys"]):
+                            p.append("rename_not_visible_from_variable")
+                        if o["values"] != prev["values"] or o["vshape"] != prev["vshape"]:
+                            p.append("values_changed")
+                elif t == "set":
+                    key = op["key"]
+                    if key not in o["keys"] or o["vars"][key] != [a["name"] for a in op["axes"]]:
+                        p.append("assigned_dims")
+                    else:
+                        labs = dict(zip(o["dims"], o["labels"]))
+                        if any(lk(labs[a["name"]]) != lk(a["labels"]) for a in op["axes"]):
+                            p.append("assigned_labels")
+                        if o["values"][key] != canon_vals(set_values(op)) or o["vshape"][key] != [len(a["labels"]) for a in op["axes"]]:
+                            p.append("assigned_values")
+                    if any(o["values"].get(x) != prev["values"][x] for x in prev["keys"] if x != key):
+                        p.append("values_changed")
+                elif t == "del":
+                    if op["key"] in o["keys"]:
+                        p.append("not_deleted")
+                    if any(o["values"].get(x) != prev["values"][x] for x in prev["keys"] if x != op["key"]):
+                        p.append("values_changed")
+                elif t == "append_axis":
+                    if o["values"] != prev["values"]:
+                        p.append("values_changed")
+                elif t in ("rename_key", "rename_keys"):
+                    pairs = [[op["old"], op["new"]]] if t == "rename_key" else op["map"]
+                    news = [b for a, b in pairs if a != b]
+                    olds = [a for a, b in pairs]
+                    # (only where the renaming has one reading: no new key is an existing key or given twice)
+                    if all(a in prev["keys"] for a in olds) and not any(b in prev["keys"] for b in news) and len(set(news)) == len(news):
+                        mp = dict((a, b) for a, b in pairs)
+                        want = {mp.get(x, x): prev["values"][x] for x in prev["keys"]}
+                        wantd = {mp.get(x, x): prev["vars"][x] for x in prev["keys"]}
+                        if sorted(o["keys"]) != sorted(want):
+                            p.append("keys_not_renamed")
+                        elif o["values"] != want:
+                            p.append("values_changed")
+                        elif o["vars"] != wantd:
+                            p.append("var_dims_changed")
+                        if "copy" not in o and (o["dims"] != prev["dims"] or [lk(L) for L in o["labels"]] != [lk(L) for L in prev["labels"]]):
+                            p.append("axes_changed")
+                if "copy" in o:
+                    cp = o["copy"]
+                    if not cp["orig_shared"]:
+                        p.append("original_not_shared")
+                    if not cp["distinct"] or not cp["orig_same"] or not cp["no_common_axis"]:
+                        m_copy.append("inplace_false_touches_original")
             # ---- correspondence with the model
-            m = []
-            if (o["err"] is None) != (l["err"] is None):
-                m.append("outcome")
-            elif o["err"] != l["err"]:
-                m.append("M.errclass")
-            for f in ("keys", "dims", "vars"):
-                if o[f] != l[f]:
-                    m.append(f)
-            if [[lab_key(x) for x in L] for L in o["labels"]] != [[lab_key(x) for x in L] for L in l["labels"]]:
-                m.append("labels")
-            if o["shared"] != l["shared"]:
-                m.append("shared")
-            if (p or m) and first is None:
-                first = {"step": k, "op": op, "impl": {x: o[x] for x in ("err", "keys", "dims", "vars", "shared")},
-                         "model": {x: l[x] for x in ("err", "keys", "dims", "vars", "shared")}}
-                prop_bad, bad = p, m
-                break
+            m = list(m_copy)
+            l = None
+            if lean_on and groups[k] is not None:
+                lo, hi = groups[k]
+                if hi == lo:
+                    l = lib[lo - 1] if lo > 0 else None
+                    errs = []
+                else:
+                    l = lib[hi - 1]
+                    errs = [x["err"] for x in lib[lo:hi] if x["err"] is not None]
+                if t == "set_axis" and op["values"] is not None and prev.get("dims") is not None:
+                    # the model is sent the generator's prediction of the mapped labels: compare only if it was right
+                    i = self.dim_pos(op["d"], prev["dims"])
+                    if i is None or lk(map_labels(op["values"], op["lkind"], prev["labels"][i])) != lk(op["labels"]):
+                        lean_on = False
+                if t == "axes_setter" and any(bool(a.get("fresh")) != (a["name"] not in prev["dims"]) for a in op["axes"]):
+                    lean_on = False
+                if lean_on and hi - lo > 1 and (errs or not ok):
+                    # a step spelled with several model steps stopped half-way: only the outcome is comparable
+                    if (not ok) != bool(errs):
+                        m.append("outcome")
+                    lean_on = False
+                elif lean_on and l is not None:
+                    m += model_diff(o, l, errs[0] if errs else None)
+                elif lean_on and l is None and not ok:
+                    m.append("outcome")
+            else:
+                lean_on = False
+            if p or m:
+                return {"kind": "P" if p else "M", "differs": sorted(set(m + p)), "first": report(k, op, o, l, p, m)}
             prev = o
-        if first is None:
-            return None
-        return {"kind": "P" if prop_bad else "M", "differs": sorted(set(bad + prop_bad)), "first": first}
+        return None
+
+    def known(self, c, io, ans, mm, open_findings):
+        ids = {f["id"] for f in open_findings}
+        if "K05" in ids and c.get("start") and mm["differs"] == ["ctor:index"]:
+            # K05 (C06, also C13): an input with an empty axis on a dimension whose common axis is not empty cannot be reindexed
+            keys, order, exp, vs = ctor_expect(c["start"])
+            for v in vs:
+                for a in v["axes"]:
+                    if not a["labels"] and exp[a["name"]]["labels"]:
+                        return "K05"
+        return None
 
     def nontrivial(self, c):
-        return len(c["ops"]) >= 3
+        return len(c["ops"]) >= 3 or bool(c.get("start"))
 
     def features(self, c, io):
         f = {"len": len(c["ops"]), "n_rejected": sum(1 for o in io["ok"] if o["err"] == "value")}
+        st = c.get("start")
+        f["start"] = "empty" if not st else "ctor:" + st["form"]
+        if st:
+            keys, order, exp, vs = ctor_expect(st)
+            f["start.nvars"] = len(vs)
+            f["start.order"] = "stated_by_C06" if all(e["known"] for e in exp.values()) else "not_stated"
+            f["start.needs_alignment"] = any(lk(a["labels"]) != lk(exp[a["name"]]["labels"]) for v in vs for a in v["axes"])
+        ops, nstart, groups = self.lean_plan(c)
+        f["model_compared_steps"] = "all" if all(g is not None for g in groups) else ("none" if not any(g is not None for g in groups) else "prefix")
         for op in c["ops"]:
             f["op:" + op["op"]] = 1
+            if op["op"] == "set" and op.get("raw"):
+                f["set.raw:" + op["raw"]] = 1
+            if op["op"] == "set_axis":
+                f["set_axis.values:" + (op["values"]["form"] if op["values"] else "none") + ("+name" if op.get("name") else "")] = 1
+            if op["op"] in ("rename_axes", "rename_keys"):
+                f[op["op"] + ":" + op["form"] + str(len(op["map"]))] = 1
+            if not op.get("inplace", True):
+                f["inplace_false:" + op["op"]] = 1
         return f
 
     def size(self, c):
-        return len(c["ops"]) * 100 + len(str(c["ops"]))
+        return len(c["ops"]) * 100 + len(str(c["ops"])) + (300 + len(str(c["start"])) if c.get("start") else 0)
 
     def reducers(self, c):
         out = []
+        if c.get("start"):
+            c2 = copy.deepcopy(c); del c2["start"]
+            out.append(c2)
+            for i in range(len(c["start"]["vars"])):
+                if len(c["start"]["vars"]) > 1:
+                    c2 = copy.deepcopy(c); del c2["start"]["vars"][i]
+                    out.append(c2)
         for k in range(len(c["ops"])):
             c2 = copy.deepcopy(c); del c2["ops"][k]
             out.append(c2)
